@@ -263,6 +263,7 @@ func runC11(ctx *core.Ctx, idx int) *core.Result {
 		p = c11Variant(p, pathP, "example.com/api/apps/v0", "v1", "v0")
 	}
 	var srcs, forms, usesCls []string
+	var bystanders []bool
 	var extraNames []map[string]string
 	for f := 0; f < 4; f++ {
 		// form of the affected import in the file
@@ -281,6 +282,26 @@ func runC11(ctx *core.Ctx, idx int) *core.Result {
 			// the file's name for the old path is the last element of the new path: a captured name stays a name
 			specs = append(specs, impSpec{qn, pathP})
 			name = qn
+		}
+		// a second import of the affected path under a name the patch does not ask for (a blank side-effect import): it is
+		// not the one the patch matches and stays, wherever it stands
+		bystander := false
+		hasMeta := false
+		for _, l := range [][]impSpec{p.Minus, p.Ctx} {
+			for _, sp := range l {
+				hasMeta = hasMeta || sp.Name == "$"
+			}
+		}
+		if form != "absent" && !hasMeta && len(p.Minus)+len(p.Ctx) > 0 && r.Intn(5) == 0 {
+			specs = append(specs, impSpec{"_", pathP})
+			bystander = true
+		}
+		bystanders = append(bystanders, bystander)
+		// the path of an unnamed '+' import is already imported under a name of its own
+		for _, sp := range p.Plus {
+			if sp.Name == "" && sp.Path != pathP && r.Intn(6) == 0 {
+				specs = append(specs, impSpec{"qalias", sp.Path})
+			}
 		}
 		extraName := map[string]string{}
 		for _, ep := range p.Extra {
@@ -417,6 +438,10 @@ func runC11(ctx *core.Ctx, idx int) *core.Result {
 				}
 			}
 			if bad {
+				continue
+			}
+			if bystanders[i] && !out[impSpec{"_", pathP}] {
+				fail("unmentioned-import-lost", "the blank import of "+pathP+" is not the import the patch matches (another spec of the same path is) but it is missing from the output")
 				continue
 			}
 			plusSet := map[impSpec]bool{}
